@@ -52,7 +52,7 @@ Inductive request :=
 Inductive op :=
 | OStart
 | OStop
-| OReq (r : request) (iofail : bool).            (* iofail: the handler's file creation fails *)
+| OReq (r : request) (iofail : bool).            (* iofail: the method's file creation fails (comment.txt; the temporary file of StoreRawDataBlock) *)
 
 (* what a handler can read of the source *)
 Record env := mkEnv {
@@ -233,7 +233,7 @@ Fixpoint linearize (v : cond -> bool) (s : script) : list action :=
 
 (* ---------- what the method does before it queues the closure ---------- *)
 (* Some r: the method returns r without involving the core loop; None: goes on to runLaterIfActive *)
-Definition precheck (fixed : bool) (e : env) (r : request) : option rc :=
+Definition precheck (fixed : bool) (e : env) (r : request) (io : bool) : option rc :=
   match r with
   | RqTriggers _ emt => if emt then Some RErr else None
   | RqPulseLengths ns np =>
@@ -245,7 +245,10 @@ Definition precheck (fixed : bool) (e : env) (r : request) : option rc :=
   | RqProjectors _ b64 matok _ => if negb b64 then Some RErr else if negb matok then Some RErr else None
   | RqStateLabel empty => if empty then Some RErr else None
   | RqComment empty => if empty then Some RErr else None
-  | RqStoreRaw n => if fixed && (n <=? 0) then Some RErr else None
+  | RqStoreRaw n =>
+      (* the count is checked first; then the temporary file is created, still in the RPC goroutine: if that
+         fails (io) the method returns the error without queueing anything *)
+      if fixed && (n <=? 0) then Some RErr else if io then Some RErr else None
   | _ => None
   end.
 
@@ -384,8 +387,8 @@ Definition step_client (c : cfg) (s : state) : option state :=
               then Some (set_crashed s1 true)           (* old: the assembler indexes MixFractions[i] out of range *)
               else Some (set_client s1 LMixWait)
           end
-      | OReq r _ :: _ =>
-          match precheck (c_fixed c) (env_of c s) r with
+      | OReq r io :: _ =>
+          match precheck (c_fixed c) (env_of c s) r io with
           | Some cls => Some (set_client s (LReturn CallReq cls))
           | None =>
               (* runLaterIfActive *)
